@@ -198,6 +198,11 @@ class Lexer(object):
         self.cur_token = None
         self.cur_token_real = None
         self.next_tokens = []
+        # whether a line terminator (7.3), or a comment containing one
+        # (7.4), was seen since the last real token; and whether one
+        # separates the current real token from the one before it.
+        self.line_terminator_seen = False
+        self.cur_token_line_terminated = False
         self.token_stack = [[None, []]]
         self.newline_idx = [0]
         self.error_token_handlers = [
@@ -252,8 +257,10 @@ class Lexer(object):
         self.next_tokens = []
         # do the dance to ensure the valid previous tokens are tracked.
         valid_prev_token = self.valid_prev_token
+        line_terminated = self.cur_token_line_terminated
         token = self.token()
         self.valid_prev_token = valid_prev_token
+        self.cur_token_line_terminated = line_terminated
         return token
 
     def token(self):
@@ -343,9 +350,16 @@ class Lexer(object):
         if (self.cur_token and
                 self.cur_token.type not in DIVISION_SYNTAX_MARKERS):
             self.cur_token_real = self.cur_token
+            self.cur_token_line_terminated = self.line_terminator_seen
+            self.line_terminator_seen = False
+
+    def _has_line_terminator(self, token):
+        return token.type == 'LINE_TERMINATOR' or (
+            token.type == 'BLOCK_COMMENT' and
+            PATT_LINE_TERMINATOR_SEQUENCE.search(token.value) is not None)
 
     def _is_prev_token_lt(self):
-        return self.prev_token and self.prev_token.type == 'LINE_TERMINATOR'
+        return self.cur_token_line_terminated
 
     def _read_regex(self):
         self.lexer.begin('regex')
@@ -402,11 +416,14 @@ class Lexer(object):
         # insert semicolon before restricted tokens
         # See section 7.9.1 ECMA262
         if (self.cur_token is not None
-            and self.cur_token.type == 'LINE_TERMINATOR'
-            and self.prev_token is not None
-            and self.prev_token.type in ['BREAK', 'CONTINUE',
-                                         'RETURN', 'THROW']):
-            return self._create_semi_token(self.cur_token)
+                and self.cur_token.type in DIVISION_SYNTAX_MARKERS
+                and self._has_line_terminator(self.cur_token)):
+            first = not self.line_terminator_seen
+            self.line_terminator_seen = True
+            if (first and self.valid_prev_token is not None
+                    and self.valid_prev_token.type in [
+                        'BREAK', 'CONTINUE', 'RETURN', 'THROW']):
+                return self._create_semi_token(self.cur_token)
 
         return self.cur_token
 
